@@ -203,8 +203,22 @@ def includeParameters (h : Store) (l : List ObjId) : List ObjId → LR
       let a := h.alloc (h.get i)
       includeParameters a.1 (l ++ [a.2]) rest
 
-/-- `setParameter(index, param)` (285-290): the slot gets a fresh clone of `param` -/
+/-- does a position other than `index` already carry the name?  (the loop added to
+`setParameter` by the repair `fix: ParameterList::setParameter refuses a name ...`) -/
+def nameElsewhere (h : Store) (l : List ObjId) (index : Nat) (n : String) : Bool :=
+  (l.eraseIdx index).any (fun i => nameOf h i == n)
+
+/-- `setParameter(index, param)` (285-295, repaired code): the slot gets a fresh clone of
+`param`; ParameterException when another position already carries `param`'s name -/
 def setParameter (h : Store) (l : List ObjId) (index : Nat) (p : Par) : LR :=
+  if index ≥ l.length then { heap := h, list := l, err := some .index }
+  else if nameElsewhere h l index p.name then { heap := h, list := l, err := some .bpp }
+  else
+    let a := h.alloc p
+    { heap := a.1, list := l.set index a.2 }
+
+/-- `setParameter` as it was before the repair (kept for the witness theorem only) -/
+def setParameterUnrepaired (h : Store) (l : List ObjId) (index : Nat) (p : Par) : LR :=
   if index ≥ l.length then { heap := h, list := l, err := some .index }
   else
     let a := h.alloc p
@@ -406,16 +420,29 @@ def shareSubListNames (h : Store) (l : List ObjId) (acc : List ObjId) : List Str
       | some e => { heap := r.heap, list := r.list, err := some e }
       | none => shareSubListNames r.heap l r.list rest
 
-/-- `createSubList(vector<size_t>)` (155-164): out-of-range indices are skipped silently;
-clones are pushed without a name check -/
+/-- `createSubList(vector<size_t>)` (repaired code): out-of-range indices are skipped
+silently; an index met twice raises ParameterException through `addParameter` -/
 def createSubListIdx (h : Store) (l : List ObjId) (acc : List ObjId) : List Nat → LR
   | [] => { heap := h, list := acc }
   | k :: rest =>
     match l[k]? with
     | none => createSubListIdx h l acc rest
     | some i =>
+      let r := addParameter h acc (h.get i)
+      match r.err with
+      | some e => { heap := r.heap, list := r.list, err := some e }
+      | none => createSubListIdx r.heap l r.list rest
+
+/-- `createSubList(vector<size_t>)` as it was before the repair: clones pushed without a
+name check (kept for the witness theorem only) -/
+def createSubListIdxUnrepaired (h : Store) (l : List ObjId) (acc : List ObjId) : List Nat → LR
+  | [] => { heap := h, list := acc }
+  | k :: rest =>
+    match l[k]? with
+    | none => createSubListIdxUnrepaired h l acc rest
+    | some i =>
       let a := h.alloc (h.get i)
-      createSubListIdx a.1 l (acc ++ [a.2]) rest
+      createSubListIdxUnrepaired a.1 l (acc ++ [a.2]) rest
 
 /-- `shareSubList(vector<size_t>)` (168-178) -/
 def shareSubListIdx (h : Store) (l : List ObjId) (acc : List ObjId) : List Nat → LR
